@@ -13,7 +13,43 @@ NAME = r'[a-zA-Z_][a-zA-Z0-9_]*'
 IDENT = r'[_a-zA-Z][_a-zA-Z0-9]*'
 OCTET = r'(?:[0-9]|[0-9][0-9]|[01][0-9][0-9]|2[0-4][0-9]|25[0-5])'
 
+KEYCH = r'[^\s()]'          # neither whitespace nor parentheses
+NONL = r'[^\n]*'            # lines never contain a newline (nextline strips it)
+
 RX = [
+    # ---- C03: the two line patterns of cfgparser ------------------------------------------------------
+    {'id': 'rx:cfgparser._keyvalue_rx', 'source': 'ZConfig.cfgparser:_keyvalue_rx',
+     'checks': [
+         # matches iff the text starts with a key character (kv_ok)
+         {'label': 'matches-iff-starts-with-key-char', 'kind': 'match', 'carries': 'C03',
+          'spec': KEYCH + NONL, 'domain': NONL},
+         # key = the MAXIMAL leading run of key characters (kv_key)
+         {'label': 'key-is-maximal-run', 'kind': 'group-end', 'group': 'key', 'carries': 'C03',
+          'spec': KEYCH + '+' + M + r'(?:[\s()]' + NONL + r')?', 'domain': NONL},
+         {'label': 'key-starts-at-0', 'kind': 'group-start', 'group': 'key', 'carries': 'C03',
+          'spec': M + KEYCH + NONL, 'domain': NONL},
+         # value = everything after the key and the whitespace following it, to the end (kv_value)
+         {'label': 'value-starts-after-whitespace', 'kind': 'group-start', 'group': 'value', 'carries': 'C03',
+          'spec': KEYCH + r'+(?:\s+' + M + r'[^\s]' + NONL + '|' + M + r'[()]' + NONL + ')', 'domain': NONL},
+         {'label': 'value-runs-to-end', 'kind': 'group-end', 'group': 'value', 'carries': 'C03',
+          'spec': KEYCH + r'+(?:\s+[^\s]' + NONL + r'|[()]' + NONL + ')' + M, 'domain': NONL},
+         {'label': 'value-absent-iff-nothing-follows', 'kind': 'group-absent', 'group': 'value', 'carries': 'C03',
+          'spec': KEYCH + r'+\s*', 'domain': NONL},
+     ]},
+    {'id': 'rx:cfgparser._section_start_rx', 'source': 'ZConfig.cfgparser:_section_start_rx',
+     'checks': [
+         # NAME or NAME ws+ NAME, exactly (sec_ok)
+         {'label': 'matches-iff-one-or-two-names', 'kind': 'match', 'carries': 'C03',
+          'spec': KEYCH + r'+(?:\s+' + KEYCH + '+)?', 'domain': NONL},
+         {'label': 'type-is-first-name', 'kind': 'group-end', 'group': 'type', 'carries': 'C03',
+          'spec': KEYCH + '+' + M + r'(?:\s+' + KEYCH + '+)?', 'domain': NONL},
+         {'label': 'name-is-second-name', 'kind': 'group-start', 'group': 'name', 'carries': 'C03',
+          'spec': KEYCH + r'+\s+' + M + KEYCH + '+', 'domain': NONL},
+         {'label': 'name-runs-to-end', 'kind': 'group-end', 'group': 'name', 'carries': 'C03',
+          'spec': KEYCH + r'+\s+' + KEYCH + '+' + M, 'domain': NONL},
+         {'label': 'name-absent-iff-single-name', 'kind': 'group-absent', 'group': 'name', 'carries': 'C03',
+          'spec': KEYCH + '+', 'domain': NONL},
+     ]},
     {'id': 'rx:substitution._name_re',
      'source': 'ZConfig.substitution:_name_match.__self__',
      'checks': [
